@@ -845,13 +845,17 @@ class Base:
                 new_name = f"canonical_{next(ctr)}"
                 match v.op:
                     case "BVS":
-                        var_map[v.hash()] = claripy.BVS(new_name, v.length, explicit_name=True)
+                        new_var = claripy.BVS(new_name, v.length, explicit_name=True)
                     case "BoolS":
-                        var_map[v.hash()] = claripy.BoolS(new_name, explicit_name=True)
+                        new_var = claripy.BoolS(new_name, explicit_name=True)
                     case "FPS":
-                        var_map[v.hash()] = claripy.FPS(new_name, v.args[1], explicit_name=True)
+                        new_var = claripy.FPS(new_name, v.args[1], explicit_name=True)
                     case "StringS":
-                        var_map[v.hash()] = claripy.StringS(new_name, explicit_name=True)
+                        new_var = claripy.StringS(new_name, explicit_name=True)
+                    case _:
+                        continue
+                # renaming must not change anything else: keep the annotations of the variable
+                var_map[v.hash()] = new_var.annotate(*v.annotations) if v.annotations else new_var
 
         return var_map, next(ctr), claripy.replace_dict(self, var_map)
 
